@@ -41,6 +41,8 @@ POLYGONS = [
     [[10, 30], [100, 30], [100, 60], [10, 60], [10, 30]],                 # an explicitly closed ring (as shapely hands them out)
     [[20.2, 40.4], [100, 30], [100, 60], [10, 60], [19.8, 39.6]],         # first and last point coincide only after rounding
 ]
+LONG_BASELINE = [[10 + 8 * k, 50 + (k % 3)] for k in range(12)]                                   # 12 points
+WEDGE_POLYGON = [[10, 45], [98, 20], [98, 70], [10, 55]]                                           # line height grows from 10 to 50 px
 HEIGHTS = [[10, 3], [7.26, 2.04], [7.25, 2.05], 'f32', None, [0, 0], [0.04, 0.02], [12.5, 0]]      # incl. zero / sub-precision heights (present, not absent)
 TEXTS = [None, '', 'abc', '<&>"\'', ' lead', 'trail ', 'a  b', 'a\tb', 'a\nb', 'a\rb', 'a b', 'é', 'שלום', 'مرحبا',
          '\U0001F600\U00020000', ']]>', '�\x85 ', ' ', '\u00a0\u3000', ' \t ']      # ... and transcriptions made of white space only
@@ -139,6 +141,11 @@ def run_shard(shard, ctx, tier):
             for ver in (0, 1):
                 for via in ('string', 'file'):
                     guarded_check(mod, {'pid': 0, 'regions': regs, 'ro': ro, 'ver': ver, 'via': via}, ctx)
+        # a foreign-tool line: many baseline points, an outline whose height varies along the line, no stored heights
+        for ver in (0, 1):
+            ln = dict(default_line(), bl=len(BASELINES), poly=len(POLYGONS), h=HEIGHTS.index(None))
+            guarded_check(mod, {'pid': 0, 'regions': [{'type': 0, 'rpoly': 0, 'rtext': 0, 'lines': [ln, default_line()]}], 'ro': None,
+                                'ver': ver, 'via': 'string'}, ctx)
     elif shard['kind'] == 'B':
         sl = slots_2x2()
         d, first = shard['dev'], shard['first']
@@ -200,8 +207,8 @@ def build(case):
         reg = RegionLayout(f'r{ri + 1}', container(POLYGONS[r['rpoly']], ck), region_type=RTYPES[r['type']])
         reg.transcription = RTEXTS[r['rtext']]
         for li, l in enumerate(r['lines']):
-            reg.lines.append(TextLine(id=f'r{ri + 1}-l{li + 1}', baseline=container(BASELINES[l['bl']], ck),
-                                      polygon=container(POLYGONS[l['poly']], ck), heights=heights_value(l['h']),
+            reg.lines.append(TextLine(id=f'r{ri + 1}-l{li + 1}', baseline=container((BASELINES + [LONG_BASELINE])[l['bl']], ck),
+                                      polygon=container((POLYGONS + [WEDGE_POLYGON])[l['poly']], ck), heights=heights_value(l['h']),
                                       transcription=TEXTS[l['t']], transcription_confidence=CONFS[l['c']], index=INDEXES[l['idx']]))
         page.regions.append(reg)
     if case['ro'] is not None:
@@ -223,7 +230,7 @@ def expected(case):
             t = TEXTS[l['t']]
             c = CONFS[l['c']]
             lines.append({'id': f'r{ri + 1}-l{li + 1}', 'index': INDEXES[l['idx']] if INDEXES[l['idx']] is not None else li,
-                          'baseline': rnd(BASELINES[l['bl']]), 'polygon': rnd(POLYGONS[l['poly']]),
+                          'baseline': rnd((BASELINES + [LONG_BASELINE])[l['bl']]), 'polygon': rnd((POLYGONS + [WEDGE_POLYGON])[l['poly']]),
                           'heights': None if h is None else [float(f'{h[0]:.1f}'), float(f'{h[1]:.1f}')],
                           'text': t, 'conf': None if (c is None or t is None) else float(f'{c:.3f}')})
         regs.append({'id': f'r{ri + 1}', 'type': RTYPES[r['type']], 'polygon': rnd(POLYGONS[r['rpoly']]),
@@ -373,6 +380,12 @@ def check_case(case, ctx):
             for wl, gl in zip(wr['lines'], gr['lines']):
                 if gl['heights'] is not None and wl['heights'] is not None and len(gl['heights']) == 2 and \
                         HEIGHTS[case['regions'][int(wr['id'][1:]) - 1]['lines'][int(wl['id'].split('-l')[1]) - 1]['h']] is None:
+                    # guessed heights: whatever the guess is, importing the same document again gives the same one
+                    if max(abs(a - b) for a, b in zip(gl['heights'], wl['heights'])) > 1e-6:
+                        ctx.violation('reload-yields-the-same-page', f'{K}/import-depends-on-earlier-imports/guessed-heights',
+                                      f'{desc}: line {wl["id"]} has no stored heights; the first import guessed {wl["heights"]}, a second import of the '
+                                      f'same document {gl["heights"]}')
+                        return
                     wl['heights'] = gl['heights']
         d4 = first_diff(want, got4)
         if d4:
